@@ -254,6 +254,11 @@ func evalC15(sc *Scenario, sim *Sim) ([]Violation, bool, string) {
 				bad = append(bad, d)
 			}
 		}
+		if s.Name != "version-online" && s.Name != "version" {
+			for _, f := range sb.OutsideFiles() {
+				bad = append(bad, "+"+f)
+			}
+		}
 		for _, wc := range r.WriteCalls() {
 			parts := strings.SplitN(wc, " ", 2)
 			rel, err := filepath.Rel(sb.W, parts[1])
@@ -287,6 +292,8 @@ func classifyPath(d string) string {
 		return "created"
 	case strings.HasPrefix(d, "-"):
 		return "deleted"
+	case strings.HasPrefix(strings.TrimLeft(p, "+-~"), "home") || strings.HasPrefix(strings.TrimLeft(p, "+-~"), "tmp"):
+		return "home-or-tmpdir"
 	case strings.Contains(p, "outside/") || !strings.Contains(p, "crs/"):
 		return "outside-root"
 	case testFileRe.MatchString(base), strings.HasSuffix(base, ".ra"), strings.HasSuffix(base, ".conf"), strings.HasSuffix(base, ".example"):
